@@ -59,6 +59,8 @@ type Net struct {
 	Fired map[string]int
 	// Hook sees every datagram handed to the network (for attribution / capture).
 	OnTell func(p *Pkt)
+	// OnArrive sees every datagram put into a destination's inbox.
+	OnArrive func(p *Pkt)
 	// Paused stops all delivery (used to build up in-flight state).
 	FaultsOff bool
 	Delivered int
@@ -97,6 +99,9 @@ func (n *Net) deliver(i int) {
 	}
 	nd.inbox = append(nd.inbox, p)
 	n.Delivered++
+	if n.OnArrive != nil {
+		n.OnArrive(p)
+	}
 }
 
 // Actions enumerates the network's scheduler actions.
